@@ -470,6 +470,47 @@ func factsTokens(t *T) (string, error) {
 		return "", err
 	}
 
+	// ParseFlag: "\\Recent" is refused, the keyword atom "recent" (no backslash) is an ordinary flag-keyword
+	if f, err := t.ParseFile("imap/command/flags.go"); err == nil {
+		fd := FuncDecl(f, "", "ParseFlag")
+		if fd == nil {
+			unknown("recent_rejected_only_with_backslash", "func ParseFlag in imap/command/flags.go")
+		} else {
+			total, inside := 0, 0
+			var walk func(n ast.Node, underBackslash bool)
+			walk = func(n ast.Node, under bool) {
+				ast.Inspect(n, func(m ast.Node) bool {
+					if m == nil || m == n {
+						return true
+					}
+					if is, ok := m.(*ast.IfStmt); ok {
+						cond := strings.Join(strings.Fields(t.Src("imap/command/flags.go", is.Cond)), " ")
+						if strings.Contains(cond, "EqualFold") && strings.Contains(strings.ToLower(cond), "\"recent\"") {
+							total++
+							if under {
+								inside++
+							}
+						}
+						walk(is.Body, under || cond == "hasBackslash")
+						if is.Else != nil {
+							walk(is.Else, under)
+						}
+						return false
+					}
+					return true
+				})
+			}
+			walk(fd.Body, false)
+			if total == 0 {
+				unknown("recent_rejected_only_with_backslash", "the EqualFold(flag, \"recent\") test in ParseFlag")
+			} else {
+				fmt.Fprintf(&sb, "Definition recent_rejected_only_with_backslash : bool := %v.   (* %d of %d \"recent\" tests are inside `if hasBackslash` *)\n", total == inside, inside, total)
+			}
+		}
+	} else {
+		return "", err
+	}
+
 	// parseListMailbox: is a string (quoted / literal) recognised before the list-char atom?
 	if f, err := t.ParseFile("imap/command/list.go"); err == nil {
 		fd := FuncDecl(f, "", "parseListMailbox")
